@@ -33,6 +33,15 @@ package task
 //@   ghostvar enq bool = false
 //@   on call (*controlcommands.CommandQueue).Enqueue : assert len(tasks) > 0 ; enq = true
 //@   ensures len(tasks) == 0 ==> err == nil && !enq
+//   a command with one target is answered with a plain (non-multi) response: its error fails the transition only if that
+//   one task is critical
+//@   ghostvar respErrSeen bool = false
+//@   ghostvar scAsked bool = false
+//@   ghostvar sc bool = false
+//@   on aftercall MesosCommandResponse.Err : respErrSeen = respErrSeen || result != nil
+//@   on call isTaskOrRoleCritical : assert arg0 == tasks[0]
+//@   on aftercall isTaskOrRoleCritical : scAsked = true ; sc = result
+//@   ensures !multi && respErrSeen && err != nil && len(tasks) == 1 ==> scAsked && sc
 //@   ghostvar multi bool = false
 //@   ghostvar nCrit int = 0
 //@   ghostvar lastCrit bool = false
@@ -70,6 +79,14 @@ package task
 //@   [C13] ensures differs ==> err != nil
 //@   [C13] loop 1 invariant !differs
 //@   [C13] loop 2 invariant !differs
+//   C02: a single-target CONFIGURE is answered with a plain response: its error fails the transition only if that task is critical
+//@   ghostvar respErrSeen bool = false
+//@   ghostvar scAsked bool = false
+//@   ghostvar sc bool = false
+//@   [C02] on aftercall MesosCommandResponse.Err : respErrSeen = respErrSeen || result != nil
+//@   [C02] on call isTaskOrRoleCritical : assert arg0 == tasks[0]
+//@   [C02] on aftercall isTaskOrRoleCritical : scAsked = true ; sc = result
+//@   [C02] ensures !multi && respErrSeen && err != nil && len(tasks) == 1 ==> scAsked && sc
 //@   ghostvar multi bool = false
 //@   ghostvar nCrit int = 0
 //@   ghostvar lastCrit bool = false
@@ -453,3 +470,15 @@ package task
 //@   loop 14 invariant !held
 //@   loop 15 invariant !held
 //@   ensures !held
+
+// C02: a task's failure must fail a transition iff its own traits or its role's task traits say critical
+//@ func isTaskOrRoleCritical(task *Task) (c bool)
+//@   property C02
+//@   ghostvar own bool = false
+//@   ghostvar role bool = false
+//@   ghostvar roleAsked bool = false
+//@   on aftercall (*Task).GetTraits : own = result.Critical
+//@   on aftercall .GetTaskTraits : role = result.Critical ; roleAsked = true
+//@   ensures task == nil ==> !c
+//@   ensures task != nil ==> c == (own || (roleAsked && role))
+//@   ensures task != nil && !own && task.parent != nil ==> roleAsked
